@@ -93,6 +93,7 @@ class CheckResult:
     raised: Optional[BaseException] = None
     visited: set = field(default_factory=set)
     raw: list = field(default_factory=list)
+    module: Any = None
 
     def values_of(self, node):
         return self.values.get(id(node), [])
@@ -213,6 +214,8 @@ def check_source(
                     res.visited = visitor.__dict__.get("pv_visited", set())
             except Exception as e:  # totality is C12's subject; others treat as harness info
                 res.raised = e
+        if keep_module:
+            res.module = mod
         return res
     finally:
         if not keep_module and module is None:
